@@ -327,6 +327,6 @@ Proof. exact gen_wiring_ok. Qed.
 Print Assumptions C10gen_wiring_ok.
 
 Theorem C10gen_sat_all_translated :
-  filter (fun s => negb (is_tie_name s)) gen_untranslated = [].
+  gen_untranslated_sat = [].
 Proof. exact gen_sat_all_translated. Qed.
 Print Assumptions C10gen_sat_all_translated.
